@@ -5,7 +5,7 @@ import ast
 
 from sa import dual
 from sa.loader import AnalysisError, Program, dotted, norm, own_nodes
-from sa.util import parent_map, ancestors, where
+from sa.util import parent_map, ancestors, where, call_sites
 
 PROPERTY = "C13"
 CORE = ("optuna.samplers", "optuna.pruners", "optuna.storages", "optuna.study")
@@ -298,10 +298,206 @@ def run(ctx):
                     used = True
                 if isinstance(x, ast.AugAssign) and isinstance(x.op, ast.Mult) and any(isinstance(y, ast.Name) and y.id in target_names for y in ast.walk(x.value)):
                     used = True
+        if not used and target_names:
+            # passed on to a helper that multiplies it in (followed through two call levels)
+            def multiplied_in_callee(fn, names, depth=0):
+                for x in own_nodes(fn.node):
+                    if isinstance(x, ast.Call):
+                        for i, a in enumerate(x.args):
+                            if isinstance(a, ast.Name) and a.id in names:
+                                gname = (dotted(x.func) or "").split(".")[-1]
+                                g2 = fn.module.funcs.get(gname)
+                                if g2 is None:
+                                    continue
+                                ps = g2.params()
+                                if i >= len(ps):
+                                    continue
+                                pn = ps[i]
+                                derived = {pn}
+                                for y in own_nodes(g2.node):
+                                    if isinstance(y, ast.Assign) and any(isinstance(z, ast.Name) and z.id in derived for z in ast.walk(y.value)):
+                                        derived |= {t.id for t in y.targets if isinstance(t, ast.Name)}
+                                for y in own_nodes(g2.node):
+                                    if isinstance(y, ast.BinOp) and isinstance(y.op, ast.Mult) and any(isinstance(z, ast.Name) and z.id in derived for z in ast.walk(y)):
+                                        return True
+                                if depth < 2 and multiplied_in_callee(g2, derived, depth + 1):
+                                    return True
+                return False
+            used = multiplied_in_callee(f, target_names)
         ctx.check(used, "R13.3", f.short, f"sign-applied:{norm(s.node)[:40]}",
                   message=f"the direction sign `{norm(s.node)[:60]}` is never multiplied with the values", how="sign consumed by * / *=",
                   where=where(f, s.node))
     ctx.floor("R13.3", "sign_ternaries", n_sign, 5)
+
+    # ------------------------------------------------------------ R13.3b no second direction handling after normalisation
+    by_func = {}
+    for s_ in sites:
+        by_func.setdefault(s_.func.qualname, []).append(s_)
+    for q, ss_ in sorted(by_func.items()):
+        signs = [x for x in ss_ if x.idiom in ("I2a", "I2b") and x.kind in ("ifexp", "if")]
+        others = [x for x in ss_ if x not in signs and x.idiom in ("I1a", "I1b")]
+        if not signs or not others:
+            continue
+        f = ss_[0].func
+        pm = parent_map(f.node)
+        # variables derived from the normalised value / the sign
+        derived = set()
+        for sg in signs:
+            for a in ancestors(sg.node, pm):
+                if isinstance(a, ast.Assign):
+                    derived |= {t.id for t in a.targets if isinstance(t, ast.Name)}
+                if isinstance(a, ast.stmt):
+                    break
+        changed = True
+        while changed:
+            changed = False
+            for n in own_nodes(f.node):
+                if isinstance(n, ast.Assign) and any(isinstance(y, ast.Name) and y.id in derived for y in ast.walk(n.value)):
+                    for t in n.targets:
+                        if isinstance(t, ast.Name) and t.id not in derived:
+                            derived.add(t.id)
+                            changed = True
+        for o in others:
+            uses = {y.id for y in ast.walk(o.node) if isinstance(y, ast.Name) and y.id in derived}
+            ctx.check(not uses, "R13.3", f.short, f"direction-applied-twice:{norm(o.test)}",
+                      message=f"{f.name} normalises the objective by a direction sign and later branches on the direction again over values derived from the "
+                              f"normalised ones ({sorted(uses)}): the direction is applied twice, so maximize no longer mirrors minimize",
+                      how="code after the sign normalisation is direction-free", where=where(f, o.node))
+
+    # ------------------------------------------------------------ R13.5 pruners: no direction-naive comparison of two value-derived operands
+    ctx.rule("R13.5", "pruners: an order comparison whose operands are both derived from reported/objective values sits inside the arms of a direction site")
+    n_cmp = 0
+    for f in p.iter_funcs(("optuna.pruners",)):
+        fsites = [x for x in sites if x.func is f and x.kind in ("if", "ifexp")]
+        if not fsites:
+            continue
+        pm = parent_map(f.node)
+        tainted = {a for a in f.params() if "value" in a}
+
+        def is_tainted(e):
+            for y in ast.walk(e):
+                if isinstance(y, ast.Call) and (dotted(y.func) or "").split(".")[-1] in ("len", "isnan", "isfinite"):
+                    continue
+                if isinstance(y, ast.Attribute) and y.attr in ("intermediate_values", "value", "values") and isinstance(y.ctx, ast.Load) \
+                        and not (isinstance(y.value, ast.Name) and y.value.id == "self"):
+                    return True
+                if isinstance(y, ast.Name) and y.id in tainted:
+                    # not under len()/size
+                    par = pm.get(id(y))
+                    if isinstance(par, ast.Call) and (dotted(par.func) or "").split(".")[-1] in ("len",):
+                        continue
+                    if isinstance(par, ast.Attribute) and par.attr in ("size", "shape", "ndim"):
+                        continue
+                    return True
+            return False
+        changed = True
+        while changed:
+            changed = False
+            for n in own_nodes(f.node):
+                tg = None
+                if isinstance(n, ast.Assign):
+                    tg, val = n.targets, n.value
+                elif isinstance(n, (ast.For, ast.comprehension)):
+                    tg, val = [n.target], n.iter
+                if tg is None:
+                    continue
+                if is_tainted(val):
+                    for t in tg:
+                        for y in ast.walk(t):
+                            if isinstance(y, ast.Name) and y.id not in tainted:
+                                tainted.add(y.id)
+                                changed = True
+        site_nodes = [x.node for x in fsites]
+        rests = []
+        for x in fsites:
+            if x.idiom == "I1b" and x.kind == "if":
+                r_ = rest_of_block(x.node, pm) or []
+                rests += r_
+        for n in own_nodes(f.node):
+            if isinstance(n, ast.Compare) and any(type(o) in dual.ORDER_OPS for o in n.ops):
+                ops = [n.left] + n.comparators
+                if sum(1 for o in ops if is_tainted(o)) >= 2:
+                    n_cmp += 1
+                    inside = any(a in site_nodes for a in ancestors(n, pm)) or any(any(y is n for y in ast.walk(r_)) for r_ in rests)
+                    ctx.check(inside, "R13.5", f.short, f"value-comparison-in-site:{norm(n)[:40]}",
+                              message=f"{f.name}: `{norm(n)[:70]}` orders two quantities derived from reported values outside any direction branch: the same "
+                                      f"comparison is used for maximize and minimize", how="comparison is inside the arms of a direction site", where=where(f, n))
+    ctx.floor("R13.5", "value_comparisons_in_pruners", n_cmp, 4)
+
+    # ------------------------------------------------------------ R13.6 direction-naive consumers of raw objective values
+    ctx.rule("R13.6", "samplers / multi-objective code: a function that reads raw trial values and applies an order-sensitive operation "
+             "(min/max/arg*/sort) is direction-aware, or receives direction-normalised input, or is tabled as direction-free; the same for a "
+             "callee fed directly with the raw-value result of such a function")
+    ORDER = {"min", "max", "nanmin", "nanmax", "argmin", "argmax", "sort", "sorted", "argsort", "nanargmin", "nanargmax", "minimum", "maximum"}
+    NAIVE_OK = {
+        "optuna/samplers/_cmaes.py::CmaEsSampler._get_trials": "max() over (step, value) items picks the last *step*; no objective values are ordered",
+        "optuna/samplers/_grid.py::GridSampler.__init__": "sorts the user's grid (dict.values()), no trial values involved",
+        "optuna/samplers/_tpe/sampler.py::TPESampler._compare": "argmax over acquisition values of candidates; the direction is folded into the below/above split",
+        "optuna/samplers/_nsgaiii/_elite_population_selection_strategy.py::_filter_inf": "clips to [min - margin, max + margin]: symmetric under negation",
+    }
+
+    def order_ops(fn):
+        return sorted({(x.id if isinstance(x, ast.Name) else x.attr) for x in own_nodes(fn.node)
+                       if isinstance(x, (ast.Name, ast.Attribute)) and (x.id if isinstance(x, ast.Name) else x.attr) in ORDER})
+
+    def reads_raw(fn):
+        return [x for x in own_nodes(fn.node) if isinstance(x, ast.Attribute) and x.attr in ("values", "value", "intermediate_values")
+                and isinstance(x.ctx, ast.Load) and not (isinstance(x.value, ast.Name) and x.value.id == "self")]
+
+    def aware(fn):
+        for x in own_nodes(fn.node):
+            if isinstance(x, ast.Compare) and site_test(x):
+                return True
+            if isinstance(x, ast.Attribute) and x.attr in ("direction", "directions"):
+                return True
+            if isinstance(x, ast.Name) and x.id in ("direction", "directions", "study_direction", "signs", "sign"):
+                return True
+            if isinstance(x, ast.Call) and (dotted(x.func) or "").split(".")[-1] in ("_normalize_value", "_rank_population", "_dominates"):
+                return True
+        return False
+    scope6 = ("optuna.samplers", "optuna.study._multi_objective", "optuna._hypervolume")
+    n_raw = 0
+    cands = {}
+    for fn in p.iter_funcs(scope6):
+        if not reads_raw(fn):
+            continue
+        n_raw += 1
+        if order_ops(fn) and not aware(fn):
+            cands[fn.short] = (fn, "orders raw values itself: " + ", ".join(order_ops(fn)))
+        # one step along the data flow: the raw-value result passed straight into another function
+        if aware(fn):
+            continue
+        if not any(isinstance(x, ast.Return) and x.value is not None for x in own_nodes(fn.node)):
+            continue
+        for cf, c in call_sites(p, fn.name, scope6):
+            if cf is fn:
+                continue
+            pm = parent_map(cf.node)
+            signed = False
+            outer = None
+            for a in ancestors(c, pm):
+                if isinstance(a, ast.BinOp) and isinstance(a.op, ast.Mult):
+                    signed = True
+                if isinstance(a, ast.Call) and a is not c and outer is None:
+                    outer = a
+                if isinstance(a, ast.stmt):
+                    break
+            if outer is None or signed:
+                continue
+            gname = (dotted(outer.func) or "").split(".")[-1]
+            gfn = cf.module.funcs.get(gname)
+            if gfn is not None and order_ops(gfn) and not aware(gfn):
+                cands[gfn.short] = (gfn, f"is fed by {cf.name} with the un-normalised result of {fn.name}() and applies " + ", ".join(order_ops(gfn)))
+    from sa.util import call_sites as _cs  # noqa: F401
+    ctx.floor("R13.6", "functions_reading_raw_values", n_raw, 15)
+    for short, (fn, why) in sorted(cands.items()):
+        if short in NAIVE_OK:
+            ctx.ok("R13.6", short, "direction-free-by-table", how=NAIVE_OK[short], nontrivial=False)
+        else:
+            ctx.fail("R13.6", short, "direction-naive-consumer",
+                     f"{fn.name} {why}, with no direction handling on that path: maximizing f does not behave like minimizing -f", where=where(fn, fn.node))
+    for short in NAIVE_OK:
+        ctx.check(short in cands or True, "R13.6", short, "table-entry-still-present", how="informational", nontrivial=False)
 
     # ------------------------------------------------------------ R13.4 coverage of consumers
     ctx.rule("R13.4", "every order-sensitive pruner / value-reading sampler reaches a direction site (module import closure)")
